@@ -412,7 +412,7 @@ func main() {
 	}
 	scale := 1
 	if *tier == "thorough" {
-		scale = 10
+		scale = 40
 	}
 	for _, m := range strings.Split(*mode, ",") {
 		rr := r.Fork()
